@@ -79,6 +79,7 @@ def jResult : Except Err Rat → Json
   | .ok w => Json.mkObj [("ok", swJRat w)]
   | .error .valueError => Json.mkObj [("err", Json.str "ValueError")]
   | .error .zeroDivisionError => Json.mkObj [("err", Json.str "ZeroDivisionError")]
+  | .error .typeError => Json.mkObj [("err", Json.str "TypeError")]
 
 /-- op `sw_model`: the full model `get_string_width` with the L2 measure, a batch of calls -/
 def opSwModel (j : Json) : R Json := do
@@ -97,6 +98,83 @@ def opSwModel (j : Json) : R Json := do
       | .error _ => false
     return Json.mkObj [("res", jResult (getStringWidth measureModel text font size unit dpi)),
                        ("path", path), ("l2", Json.bool l2)]
+  return Json.mkObj [("outs", Json.arr outs.toArray)]
+
+/-! ### typed Python values (`Model.StrWidth.Val`)
+
+JSON form `{"t": tag, "v": payload}`: `none`, `bool` (v: bool), `int` (v: int), `float` (v: [num, den]), `nan`,
+`inf` (neg: bool), `str` / `npstr` (v: code points), `bytes`, `tuple` (v: [values]; hashable iff all elements are),
+`list` / `dict` / `set` (→ `Val.list`), `ndarray`, `npint` (v: int), `npfloat` (v: [num, den]), `npbool`, `other`. -/
+partial def asVal (j : Json) : R Val := do
+  let t ← strF j "t"
+  match t with
+  | "none" => return .null
+  | "bool" => return .bool (← boolF j "v")
+  | "int" => return .int (← intF j "v")
+  | "float" => return .float (← swRatF j "v")
+  | "nan" => return .nan
+  | "inf" => return .inf (← boolF j "neg")
+  | "str" => return .str (String.ofList (← charsF j "v"))
+  | "npstr" => return .npStr (String.ofList (← charsF j "v"))
+  | "bytes" => return .bytes
+  | "tuple" =>
+    let vs ← listF asVal j "v"
+    return .tuple (vs.all Val.hashable)
+  | "list" | "dict" | "set" => return .list
+  | "ndarray" => return .ndarray
+  | "npint" => return .npInt (← intF j "v")
+  | "npfloat" => return .npFloat (← swRatF j "v")
+  | "npbool" => return .npBool (← boolF j "v")
+  | "other" => return .other
+  | _ => throw s!"val: unknown tag {t}"
+
+def jArgClass : ArgClass → Json
+  | .supported => "supported" | .lenient => "lenient" | .unsupported => "unsupported" | .free => "free"
+
+def jExpect : Expect → Json
+  | .valueError => "ValueError" | .width => "width" | .either => "either" | .free => "free"
+
+def jStage : Stage Rat → Json
+  | .ok w => Json.mkObj [("ok", swJRat w)]
+  | .raises .valueError => Json.mkObj [("err", Json.str "ValueError")]
+  | .raises .zeroDivisionError => Json.mkObj [("err", Json.str "ZeroDivisionError")]
+  | .raises .typeError => Json.mkObj [("err", Json.str "TypeError")]
+  | .unmodelled => Json.mkObj [("unmodelled", Json.bool true)]
+
+/-- what the implementation did, as a `Stage`: `{"ok": [n, d]}`, `{"err": "ValueError" | "TypeError" |
+"ZeroDivisionError"}`; anything else (another exception, a non-finite or non-real return value) is `{"other": …}`
+and becomes `Stage.unmodelled`, which meets only `Expect.free` -/
+def asObserved (j : Json) : R (Stage Rat) := do
+  if let some w := optFld j "ok" then return .ok (← swAsRat w)
+  if let some e := optFld j "err" then
+    match ← asStr e with
+    | "ValueError" => return .raises .valueError
+    | "TypeError" => return .raises .typeError
+    | "ZeroDivisionError" => return .raises .zeroDivisionError
+    | _ => return .unmodelled
+  return .unmodelled
+
+/-- op `sw_vals`: the value-level model and the specification classes for a batch of calls over typed values;
+with `obs` the Lean predicate `meets (expected …) obs` is evaluated on the implementation's outcome -/
+def opSwVals (j : Json) : R Json := do
+  let calls ← listF pure j "calls"
+  let outs ← calls.mapM fun c => do
+    let text ← asVal (← fld c "text")
+    let font ← asVal (← fld c "font")
+    let size ← asVal (← fld c "size")
+    let unit ← asVal (← fld c "unit")
+    let dpi ← asVal (← fld c "dpi")
+    let ex := expected text font size unit dpi
+    let l2 := match fontPathV font with
+      | .ok p => (match fontByFile p with | some f => isL2 f | none => false)
+      | .error _ => false
+    let mut out := [("font_class", jArgClass (fontClass font)), ("unit_class", jArgClass (unitClass unit)),
+      ("domain", Json.arr #[Json.bool (textInDomain text), Json.bool (sizeInDomain size), Json.bool (dpiInDomain dpi)]),
+      ("expected", jExpect ex),
+      ("model", jStage (getStringWidthV measureModel text font size unit dpi)), ("l2", Json.bool l2)]
+    if let some o := optFld c "obs" then
+      out := out ++ [("meets", Json.bool (meets ex (← asObserved o)))]
+    return Json.mkObj out
   return Json.mkObj [("outs", Json.arr outs.toArray)]
 
 /-- op `sw_spec`: the specification predicates on observed values -/
@@ -133,7 +211,7 @@ def opSwTables (_ : Json) : R Json := do
 
 namespace StrWidth
 def ops : List (String × (Json → R Json)) :=
-  [("sw_l1", opSwL1), ("sw_l2", opSwL2), ("sw_model", opSwModel), ("sw_spec", opSwSpec), ("sw_tables", opSwTables)]
+  [("sw_l1", opSwL1), ("sw_l2", opSwL2), ("sw_model", opSwModel), ("sw_vals", opSwVals), ("sw_spec", opSwSpec), ("sw_tables", opSwTables)]
 end StrWidth
 
 end Driver
